@@ -300,6 +300,51 @@ func rewriteFile(p *packages.Package, f *ast.File, name, dir string, rep *report
 		return true
 	}, nil)
 
+	// 1f. channel receives and sends outside select -> verifrt.Recv / Recv2 / Send: a task that would block on a channel gives
+	// the baton to the other tasks instead of blocking for real while it holds it (the peer it waits for may be another task)
+	inSelect := map[ast.Node]bool{}
+	ast.Inspect(f, func(n ast.Node) bool {
+		if cc, ok := n.(*ast.CommClause); ok && cc.Comm != nil {
+			ast.Inspect(cc.Comm, func(m ast.Node) bool {
+				if m != nil {
+					inSelect[m] = true
+				}
+				return true
+			})
+		}
+		return true
+	})
+	astutil.Apply(f, func(c *astutil.Cursor) bool {
+		switch x := c.Node().(type) {
+		case *ast.AssignStmt:
+			if len(x.Lhs) == 2 && len(x.Rhs) == 1 && !inSelect[x] {
+				if u, ok := x.Rhs[0].(*ast.UnaryExpr); ok && u.Op == token.ARROW {
+					pos := p.Fset.Position(u.Pos())
+					rep.LockSites = append(rep.LockSites, fmt.Sprintf("%s:%d channel receive (2 values)", rel, pos.Line))
+					x.Rhs[0] = &ast.CallExpr{Fun: &ast.SelectorExpr{X: ast.NewIdent("verifrt"), Sel: ast.NewIdent("Recv2")}, Args: []ast.Expr{u.X}}
+					changed, usesRT = true, true
+				}
+			}
+		case *ast.UnaryExpr:
+			if x.Op == token.ARROW && !inSelect[x] {
+				if _, isRange := c.Parent().(*ast.RangeStmt); !isRange {
+					pos := p.Fset.Position(x.Pos())
+					rep.LockSites = append(rep.LockSites, fmt.Sprintf("%s:%d channel receive", rel, pos.Line))
+					c.Replace(&ast.CallExpr{Fun: &ast.SelectorExpr{X: ast.NewIdent("verifrt"), Sel: ast.NewIdent("Recv")}, Args: []ast.Expr{x.X}})
+					changed, usesRT = true, true
+				}
+			}
+		case *ast.SendStmt:
+			if !inSelect[x] {
+				pos := p.Fset.Position(x.Pos())
+				rep.LockSites = append(rep.LockSites, fmt.Sprintf("%s:%d channel send", rel, pos.Line))
+				c.Replace(&ast.ExprStmt{X: &ast.CallExpr{Fun: &ast.SelectorExpr{X: ast.NewIdent("verifrt"), Sel: ast.NewIdent("Send")}, Args: []ast.Expr{x.Chan, x.Value}}})
+				changed, usesRT = true, true
+			}
+		}
+		return true
+	}, nil)
+
 	// 1e. time.Now -> verifrt.Now (clock seam)
 	astutil.Apply(f, func(c *astutil.Cursor) bool {
 		sel, ok := c.Node().(*ast.SelectorExpr)
